@@ -198,6 +198,7 @@ fn main() {
     let out = args[3].clone();
     quiet_panics();
     dropshot::verif::install_memory_sink();
+    verif_harness::campaign_budget(&out);
     httpc::stop_early_into(&out);
     let seed = seed_from_env();
     let mut r = rng(seed, 77);
